@@ -687,3 +687,51 @@ def run_cache_guard_sites(repo, task):
 def run_index_cache_guard_sites(repo, task):
     """G13 for the flat index classes (C02 / C04 / C09): every read of `self._labels` / `self._positions` is dominated by a test of `self._recache`"""
     return run_cache_guard_sites(repo, dict(task, cache_target='index'))
+
+
+def run_store_growth_sites(repo, task):
+    """C20 / C08 / C01 site obligations read off the AST (G14): a block store is grown in place (`.append` / `.extend`) only when it is the receiver's own store
+    inside the grow-only growth methods (`FrameGO.__setitem__` / `.extend`, `TypeBlocks.append` / `.extend` themselves), or a store made in the same function by a
+    call (`.copy()`, `TypeBlocks.from_blocks(...)`): never one obtained as `<other object>._blocks` -- growing that one changes the container it was taken from
+    ("returns a new container ... the original is left exactly as it was")."""
+    import ast
+    t0 = time.time()
+    items, failures = [], []
+
+    def ob(name, ok, note, fn, undecided=False):
+        v = 'proved' if ok else ('undecided' if undecided else 'refuted')
+        items.append(dict(name=name, fn=fn, kind='G14', verdict=v, backend='ast', ms=0.0, note=note))
+        if v == 'refuted':
+            failures.append(dict(key=f'G:{name}', what=f'{name}: {note}', nofail=True, replay=dict(site=name, note=note)))
+    core = os.path.join(repo, 'static_frame/core')
+    n = 0
+    OWN_GROWTH = {('FrameGO', '__setitem__'), ('FrameGO', 'extend'), ('FrameGO', 'extend_items'), ('TypeBlocks', 'append'), ('TypeBlocks', 'extend')}
+    for mod in sorted(f for f in os.listdir(core) if f.endswith('.py')):
+        tree = ast.parse(open(os.path.join(core, mod)).read())
+        for cls in [c for c in ast.walk(tree) if isinstance(c, ast.ClassDef)]:
+            for fn in [f for f in cls.body if isinstance(f, ast.FunctionDef)]:
+                q = f'{mod}:{cls.name}.{fn.name}'
+                binds = {}
+                for a in ast.walk(fn):
+                    if isinstance(a, ast.Assign) and len(a.targets) == 1 and isinstance(a.targets[0], ast.Name):
+                        binds.setdefault(a.targets[0].id, []).append(a.value)
+                k = 0
+                for c_ in sorted((x for x in ast.walk(fn) if isinstance(x, ast.Call) and isinstance(x.func, ast.Attribute) and x.func.attr in ('append', 'extend')), key=lambda x: (x.lineno, x.col_offset)):
+                    recv = c_.func.value
+                    if isinstance(recv, ast.Attribute) and recv.attr == '_blocks' and cls.name != 'TypeBlocks':
+                        n += 1
+                        own = isinstance(recv.value, ast.Name) and recv.value.id == 'self' and (cls.name, fn.name) in OWN_GROWTH
+                        ob(f'{q}:store-growth#{k}', own, f'L{c_.lineno}: {ast.unparse(c_)[:80]} ' + ('(the grow-only container grows its own store)' if own else '(grows the block store of an object in place)'), q)
+                        k += 1
+                    elif isinstance(recv, ast.Name) and recv.id in binds and any('_blocks' in ast.unparse(v) or 'TypeBlocks' in ast.unparse(v) for v in binds[recv.id]) \
+                            and not any(isinstance(v, (ast.List, ast.ListComp)) or ast.unparse(v).startswith(('list(', '[')) or '.tolist()' in ast.unparse(v) or ast.unparse(v).startswith('range(') for v in binds[recv.id]):
+                        n += 1
+                        alias = [ast.unparse(v) for v in binds[recv.id] if isinstance(v, ast.Attribute) and v.attr == '_blocks']
+                        ob(f'{q}:store-growth#{k}', not alias, f'L{c_.lineno}: {recv.id}.{c_.func.attr}(...) where {recv.id} is bound to {[ast.unparse(v)[:50] for v in binds[recv.id]]}'
+                           + (f' -- {alias} is the live store of another object' if alias else ''), q)
+                        k += 1
+    rep = dict(name=task['name'], status='ok' if n >= 4 else 'checker-fault', items=items, failures=failures, evaluations=0, distinct=0, rule='',
+               samples=[dict(obligation=i['name'], verdict=i['verdict']) for i in items[:3]], trusted=[], assumptions=[], wall_s=round(time.time() - t0, 2))
+    if n < 4:
+        rep['detail'] = f'only {n} block-store growth calls found: the generator no longer matches the source layout'
+    return rep
